@@ -238,8 +238,10 @@ def run_cbmc(build, ob):
     t0 = time.time()
     res = {'cmd': ' '.join(cmd[:1] + ['<goto>'] + cmd[2:])}
     # own process group, so that a timeout kills cbmc itself and not only the /usr/bin/time wrapper
+    # TMPDIR: cbmc writes the CNF for an external SAT solver to a temporary file (GBs); keep it inside the per-run scratch directory,
+    # which is removed at the end, so that a solver killed on timeout leaves nothing behind in /tmp
     proc = subprocess.Popen(['/usr/bin/time', '-f', 'MAXRSS_KB=%M'] + cmd, stdout=subprocess.PIPE, stderr=subprocess.STDOUT,
-                            preexec_fn=limit_mem, start_new_session=True)
+                            preexec_fn=limit_mem, start_new_session=True, env=dict(os.environ, TMPDIR=build.tmp))
     try:
         outb, _ = proc.communicate(timeout=ob.get('timeout', 300))
         out = outb.decode('utf-8', 'replace')
@@ -303,7 +305,7 @@ def get_trace(build, ob, propname):
     gotobin = build.goto_for(ob.get('defines', []))
     cmd = cbmc_cmd(gotobin, ob) + ['--trace', '--json-ui', '--property', propname]
     try:
-        proc = subprocess.Popen(cmd, stdout=subprocess.PIPE, stderr=subprocess.DEVNULL, preexec_fn=limit_mem, start_new_session=True)
+        proc = subprocess.Popen(cmd, stdout=subprocess.PIPE, stderr=subprocess.DEVNULL, preexec_fn=limit_mem, start_new_session=True, env=dict(os.environ, TMPDIR=build.tmp))
         try:
             outb, _ = proc.communicate(timeout=ob.get('timeout', 300) * 2)
         except subprocess.TimeoutExpired:
